@@ -103,6 +103,63 @@ func genPositionsWalk(r *rand.Rand, n int) []Step {
 	return st
 }
 
+// Scripted scenarios with seeded parameters (scene "positions": oracle pool 1 uatom/uusdc with leverage and perpetual
+// enabled, balancer pool 2 uelys/uusdc, vault funded by u4).  Each targets a specific multi-step corner of a property.
+func genScenario(r *rand.Rand, i int) []Step {
+	blk := func(dt int) Step { return Step{"a": "block", "dt": float64(dt)} }
+	u, v := pick(r, "u2", "u3"), "u1"
+	switch i % 8 {
+	case 0: // unbalance the oracle pool with a big one-way swap, then rebalance it (weight-recovery bonus from the treasury)
+		return []Step{{"a": "swapIn", "u": u, "p": float64(1), "din": "uusdc", "sz": pick(r, "x2", "big", "x2"), "limit": "loose"}, blk(5),
+			{"a": "swapIn", "u": u, "p": float64(1), "din": "uatom", "sz": pick(r, "s3", "s2"), "limit": "loose"}, blk(5),
+			{"a": "swapOut", "u": "u3", "p": float64(1), "din": "uatom", "sz": pick(r, "s2", "s3"), "limit": "loose"}, blk(5),
+			{"a": "join", "u": u, "p": float64(1), "sz": "s2", "mode": "single", "d": "uatom"}, blk(5),
+			{"a": "exit", "u": v, "p": float64(1), "frac": "third", "d": pick(r, "uusdc", "uatom")}, blk(5)}
+	case 1: // large low-leverage long, then the main LP tries to withdraw most of the pool / a trader buys the custody asset
+		return []Step{{"a": "perpOpen", "u": u, "p": float64(1), "side": "long", "coll": "uusdc", "sz": "s3", "lev": "1.5"}, blk(3700),
+			{"a": "exit", "u": v, "p": float64(1), "frac": pick(r, "73%", "73%", "65%"), "d": pick(r, "", "", "", "uatom")}, blk(5),
+			{"a": "swapOut", "u": "u3", "p": float64(1), "din": "uusdc", "sz": pick(r, "s3", "big"), "limit": "loose"}, blk(5),
+			{"a": "exit", "u": v, "p": float64(1), "frac": "half"}, blk(5),
+			{"a": "perpClose", "u": u, "id": float64(1), "frac": "all"}, blk(5)}
+	case 2: // several locked commits in one block, then an early partial exit, then one after expiry
+		return []Step{{"a": "join", "u": u, "p": float64(1), "sz": "s2", "mode": pick(r, "all", "single"), "d": "uusdc"},
+			{"a": "join", "u": u, "p": float64(1), "sz": "s1", "mode": pick(r, "all", "single"), "d": "uatom"},
+			{"a": "join", "u": u, "p": float64(1), "sz": "s2", "mode": "all"}, blk(5),
+			{"a": "exit", "u": u, "p": float64(1), "frac": pick(r, "tiny", "third", "half")}, blk(pick(r, 60, 600, 3000)),
+			{"a": "exit", "u": u, "p": float64(1), "frac": pick(r, "half", "all")}, blk(3600),
+			{"a": "exit", "u": u, "p": float64(1), "frac": pick(r, "half", "all")}, blk(5)}
+	case 3: // a leveraged long made unhealthy by a price drop, then topped up by its owner (consolidating open)
+		return []Step{{"a": "perpOpen", "u": u, "p": float64(1), "side": "long", "coll": "uusdc", "sz": "s1", "lev": "5"}, blk(5),
+			{"a": "feed", "asset": "ATOM", "mul": pick(r, "0.81", "0.815", "0.82")}, blk(5),
+			{"a": "perpOpen", "u": u, "p": float64(1), "side": "long", "coll": "uusdc", "sz": pick(r, "1000", "50000"), "lev": pick(r, "0", "2")}, blk(5),
+			{"a": "perpClosePositions", "u": "bot", "liq": []any{[]any{u, float64(1)}}}, blk(5)}
+	case 4: // vault rate above one: interest is stacked late in a block, then a deposit / withdrawal in the same block
+		return []Step{{"a": "levOpen", "u": u, "p": float64(1), "sz": "s2", "lev": "5"}, blk(5), blk(86400 * 200),
+			{"a": "levClose", "u": u, "id": float64(1), "frac": pick(r, "third", "half")},
+			{"a": "bond", "u": "u3", "sz": pick(r, "100000", "7", "123456789")},
+			{"a": "unbond", "u": "u3", "frac": "all"}, blk(5),
+			{"a": "bond", "u": "u3", "sz": pick(r, "1", "2", "3")}, {"a": "unbond", "u": "u4", "frac": "tiny"}, blk(5),
+			{"a": "unbond", "u": "u3", "frac": "all"}, blk(5)}
+	case 5: // opposite-direction swap requests in one block, one of which fails when executed
+		return []Step{{"a": "swapIn", "u": "u1", "p": float64(2), "din": "uelys", "sz": "s1", "limit": "loose"},
+			{"a": "swapIn", "u": "u3", "p": float64(2), "din": "uusdc", "sz": pick(r, "s2", "s3"), "limit": "loose"},
+			{"a": "swapIn", "u": "u2", "p": float64(2), "din": "uusdc", "sz": "s1", "limit": "tight"}, blk(5), blk(5),
+			{"a": "swapOut", "u": "u1", "p": float64(2), "din": "uelys", "sz": "s1", "limit": "tight"},
+			{"a": "swapOut", "u": "u3", "p": float64(2), "din": "uelys", "sz": "s2", "limit": "loose"},
+			{"a": "swapIn", "u": "u2", "p": float64(2), "din": "uusdc", "sz": "s1", "limit": "loose", "rcpt": "u3"}, blk(5), blk(5)}
+	case 6: // two leveraged positions that become liquidatable in the same sweep
+		return []Step{{"a": "levOpen", "u": "u2", "p": float64(1), "sz": "s1", "lev": "9"}, {"a": "levOpen", "u": "u3", "p": float64(1), "sz": "s1", "lev": "9"},
+			{"a": "levOpen", "u": "u1", "p": float64(1), "sz": "s1", "lev": "2"}, blk(5),
+			{"a": "feed", "asset": "ATOM", "mul": pick(r, "0.75", "0.7")}, blk(5), blk(5),
+			{"a": "levClose", "u": "u1", "id": float64(3), "frac": "half"}, blk(5)}
+	default: // interest settlement that leaves the position open (long-only pool), followed by amm-side operations
+		return []Step{{"a": "perpOpen", "u": u, "p": float64(1), "side": "long", "coll": pick(r, "uusdc", "trading"), "sz": "s1", "lev": "5"}, blk(5), blk(3600 * 24),
+			{"a": "perpClosePositions", "u": "bot", "liq": []any{[]any{u, float64(1)}}}, blk(5),
+			{"a": "swapIn", "u": "u3", "p": float64(1), "din": "uusdc", "sz": "s1", "limit": "loose"}, blk(5),
+			{"a": "join", "u": "u3", "p": float64(1), "sz": "s1", "mode": "all"}, blk(5)}
+	}
+}
+
 func cmdGen(args []string) {
 	fs := flag.NewFlagSet("gen", flag.ExitOnError)
 	family := fs.String("family", "ledger", "family")
@@ -126,6 +183,11 @@ func cmdGen(args []string) {
 			s.Steps = genLedgerWalk(r, *depth)
 		case "positions":
 			s.Steps = genPositionsWalk(r, *depth)
+		case "scenario":
+			s.Scene = "positions"
+			s.Steps = genScenario(r, i)
+			// a scenario is followed by a short random walk so that later operations see its aftermath
+			s.Steps = append(s.Steps, genPositionsWalk(r, *depth)...)
 		default:
 			if g, ok := extraGens[*family]; ok {
 				s.Scene, s.Steps = g(r, *depth)
